@@ -9,7 +9,7 @@
 From Coq Require Import List Arith NArith ZArith QArith Qabs Bool Permutation.
 From PrefVerif Require Import Lib.Perms Model.C1P Model.Approval.
 From PrefVerif Require Import Lib.Val Model.PQTree.
-From PrefVerif Require Proofs.C1P Proofs.Approval Proofs.PQTree.
+From PrefVerif Require Proofs.C1P Proofs.Approval Proofs.PQTree Proofs.PQTreeComplete.
 Import ListNotations.
 Import Proofs.C1P Proofs.Approval.
 Local Open Scope nat_scope.
@@ -361,7 +361,7 @@ Print Assumptions ref_reorder_contract.
    elems = the order in which reorder_sets visits the elements (iteration order of a CPython set: a parameter).
    PROVED: the mirror only fails with ValueError (its fuel is never exhausted), an answer is a rearrangement of the
    family, and it is SOUND: in the answer, for every element the sets containing it are consecutive.
-   NOT PROVED (pq_reorder_complete, the Booth-Lueker theorem for this variant): "Err ValueErr only if no arrangement
+   PROVED FURTHER BELOW (pq_reorder_complete, the Booth-Lueker theorem for this variant); this comment predates it. Formerly: not proved: "Err ValueErr only if no arrangement
    exists"; this half stays compared with the verified reference sets_decide / c1p_decide on bounded inputs.
    Evidence for it beyond the correspondence: the completeness step "(C) a frontier of t in which the sets containing
    v are consecutive is still a frontier of the tree returned by set_contiguous v t, and set_contiguous fails only if
@@ -441,6 +441,101 @@ Theorem pq_de_sound : forall elems_of, (forall F, incl (concat F) (elems_of F)) 
   de_check alts ballots (fst w) (snd w) = true.
 Proof. exact Proofs.PQTree.pq_de_sound. Qed.
 Print Assumptions pq_de_sound.
+
+(* COMPLETENESS of the mirror (Proofs/PQTreeComplete.v): if the family has an arrangement in which, for every
+   element, the sets containing it are consecutive, pq_reorder returns an answer — whatever the visiting order elems.
+   Proof: the step lemma (C) "a frontier of t in which the sets containing v are consecutive is still a frontier of
+   the tree set_contiguous v t returns, and set_contiguous does not fail when t has such a frontier" (step_full),
+   by induction on the fuel through both passes, with the block-shape theorem for a frontier cut into the blocks of
+   the children, the converse of simplify_spec (simplify_complete), the case analyses p_cases_complete /
+   q_cases_complete (including the reversal of the children in Q.set_contiguous) and the invariant
+   "UNALIGNED => every frontier has a set without v at both ends". *)
+Theorem pq_reorder_complete : forall elems F,
+  (exists res, SetsOK F res) -> exists res', pq_reorder elems F = Ok res'.
+Proof. exact Proofs.PQTreeComplete.pq_reorder_complete. Qed.
+Print Assumptions pq_reorder_complete.
+
+(* ValueError only if no arrangement exists *)
+Theorem pq_reorder_err : forall elems F,
+  pq_reorder elems F = Err ValueErr -> ~ exists res, Permutation F res /\ forall v, Interval (fun s => In v s) res.
+Proof. exact Proofs.PQTreeComplete.pq_reorder_err. Qed.
+Print Assumptions pq_reorder_err.
+
+(* in terms of the verified checker / reference of the contract *)
+Theorem pq_reorder_complete_sets_decide : forall elems F,
+  sets_decide F = true -> exists res, pq_reorder elems F = Ok res.
+Proof.
+  intros elems F H. apply Proofs.PQTreeComplete.pq_reorder_complete. now apply Proofs.C1P.sets_decide_correct.
+Qed.
+Print Assumptions pq_reorder_complete_sets_decide.
+
+(* the step lemma itself *)
+Theorem pq_step_complete : forall f v t o,
+  proper t = true -> length (ordering t) <= f -> Proofs.PQTree.Ord t o -> Interval (fun s => In v s) o ->
+  exists t' st, set_contiguous f v t = Ok (t', st) /\ Proofs.PQTree.Ord t' o.
+Proof. exact Proofs.PQTreeComplete.step_C. Qed.
+Print Assumptions pq_step_complete.
+
+(* hence the mirror meets the whole contract of reorder_sets, and everything built on it is sound AND complete *)
+Theorem pq_contract : forall elems_of, (forall F, incl (concat F) (elems_of F)) ->
+  reorder_contract (Proofs.PQTree.pq_reorder_fn elems_of).
+Proof. exact Proofs.PQTreeComplete.pq_contract. Qed.
+Print Assumptions pq_contract.
+
+Theorem pq_solve_correct : forall elems_of, (forall F, incl (concat F) (elems_of F)) -> forall rows nc,
+  match solve_model (Proofs.PQTree.pq_reorder_fn elems_of) rows nc with
+  | Some perm => c1p_check rows nc perm = true
+  | None => c1p_decide rows nc = false
+  end.
+Proof. exact Proofs.PQTreeComplete.pq_solve_correct. Qed.
+Print Assumptions pq_solve_correct.
+
+Theorem pq_solve_complete : forall elems_of rows nc,
+  c1p_decide rows nc = true -> exists perm, solve_model (Proofs.PQTree.pq_reorder_fn elems_of) rows nc = Some perm.
+Proof. exact Proofs.PQTreeComplete.pq_solve_complete. Qed.
+Print Assumptions pq_solve_complete.
+
+Theorem pq_isC1P_correct : forall elems_of, (forall F, incl (concat F) (elems_of F)) -> forall rows nc,
+  isC1P_model (Proofs.PQTree.pq_reorder_fn elems_of) rows nc = c1p_decide rows nc.
+Proof. exact Proofs.PQTreeComplete.pq_isC1P_correct. Qed.
+Print Assumptions pq_isC1P_correct.
+
+Theorem pq_isC1P_complete : forall elems_of rows nc,
+  c1p_decide rows nc = true -> isC1P_model (Proofs.PQTree.pq_reorder_fn elems_of) rows nc = true.
+Proof. exact Proofs.PQTreeComplete.pq_isC1P_complete. Qed.
+Print Assumptions pq_isC1P_complete.
+
+Theorem pq_ci_complete : forall elems_of, (forall F, incl (concat F) (elems_of F)) -> forall alts ballots,
+  match is_candidate_interval (solve_model (Proofs.PQTree.pq_reorder_fn elems_of)) alts ballots with
+  | Some order => ci_check alts ballots order = true | None => ~ CI alts ballots end.
+Proof. exact Proofs.PQTreeComplete.pq_ci_correct. Qed.
+Print Assumptions pq_ci_complete.
+Theorem pq_cei_complete : forall elems_of, (forall F, incl (concat F) (elems_of F)) -> forall alts ballots,
+  match is_candidate_extremal_interval (solve_model (Proofs.PQTree.pq_reorder_fn elems_of)) alts ballots with
+  | Some order => cei_check alts ballots order = true | None => ~ CEI alts ballots end.
+Proof. exact Proofs.PQTreeComplete.pq_cei_correct. Qed.
+Print Assumptions pq_cei_complete.
+Theorem pq_vi_complete : forall elems_of, (forall F, incl (concat F) (elems_of F)) -> forall alts ballots,
+  match is_voter_interval (solve_model (Proofs.PQTree.pq_reorder_fn elems_of)) alts ballots with
+  | Some border => vi_check alts ballots border = true | None => ~ VI alts ballots end.
+Proof. exact Proofs.PQTreeComplete.pq_vi_correct. Qed.
+Print Assumptions pq_vi_complete.
+Theorem pq_vei_complete : forall elems_of, (forall F, incl (concat F) (elems_of F)) -> forall alts ballots,
+  match is_voter_extremal_interval (solve_model (Proofs.PQTree.pq_reorder_fn elems_of)) alts ballots with
+  | Some border => vei_check alts ballots border = true | None => ~ VEI alts ballots end.
+Proof. exact Proofs.PQTreeComplete.pq_vei_correct. Qed.
+Print Assumptions pq_vei_complete.
+Theorem pq_wsc_complete : forall elems_of, (forall F, incl (concat F) (elems_of F)) -> forall alts ballots,
+  match is_weakly_single_crossing (solve_model (Proofs.PQTree.pq_reorder_fn elems_of)) alts ballots with
+  | Some border => wsc_check alts ballots border = true | None => ~ WSC alts ballots end.
+Proof. exact Proofs.PQTreeComplete.pq_wsc_correct. Qed.
+Print Assumptions pq_wsc_complete.
+Theorem pq_de_complete : forall elems_of, (forall F, incl (concat F) (elems_of F)) -> forall alts ballots,
+  Forall (fun b => incl b alts) ballots ->
+  match is_dichotomous_euclidean (solve_model (Proofs.PQTree.pq_reorder_fn elems_of)) alts ballots with
+  | Some w => de_check alts ballots (fst w) (snd w) = true | None => ~ DE alts ballots end.
+Proof. exact Proofs.PQTreeComplete.pq_de_correct. Qed.
+Print Assumptions pq_de_complete.
 
 Example pq_nonvacuous :
   pq_reorder [0;1;2;3] [[0;1];[2;3];[1;2];[3];[]] = Ok [[]; [0;1]; [1;2]; [2;3]; [3]] /\
